@@ -152,6 +152,7 @@ type Env struct {
 	canonQ   bool   // render quantifiers as SMT quantifiers over canonical bound names (for syntactic matching)
 	noShare  bool
 	hybrid   bool
+	hybridAll bool // alternating hypotheses stay with the solver as well (contract pragma: quantifiers solver)
 	specPkg  string // package of the spec function being expanded (type names in its body resolve there)
 	qdepth   int
 }
@@ -500,7 +501,11 @@ func (e *Env) index(x *Expr) TV {
 		e.x.wfLoaded(e, v, et, And(mk(SBool, "(<= 0 %s)", i.T), mk(SBool, "(< %s %s)", i.T, SlLen(a.T))))
 		return TV{v, et}
 	case strings.HasPrefix(string(a.T.Sort), "(Array "):
-		e.cands.addIdxFor(i.T, a.T)
+		if i.T.Sort == SStr {
+			e.cands.addKey(i.T)
+		} else {
+			e.cands.addIdxFor(i.T, a.T)
+		}
 		var et types.Type
 		if a.Ty != nil {
 			if at, ok := a.Ty.Underlying().(*types.Array); ok {
@@ -562,6 +567,29 @@ func (e *Env) call(x *Expr) TV {
 			}
 		}
 		sfail("len of %s", a.T.Sort)
+	case "upd":
+		// upd(a, k, v): the ghost array a with a[k] = v
+		a := e.Tr(x.Args[0])
+		k := e.Tr(x.Args[1])
+		v := e.Tr(x.Args[2])
+		if !strings.HasPrefix(string(a.T.Sort), "(Array ") {
+			sfail("upd needs an array-sorted ghost value, got %s", a.T.Sort)
+		}
+		if k.T.Sort == SStr {
+			e.cands.addKey(k.T)
+		}
+		return TV{StoreT(a.T, k.T, v.T), a.Ty}
+	case "push":
+		// push(s, v): the slice s extended by one element (spec-level append, for ghost sequences)
+		a := e.Tr(x.Args[0])
+		v := e.Tr(x.Args[1])
+		if !isSliceSort(a.T.Sort) {
+			sfail("push needs a slice, got %s", a.T.Sort)
+		}
+		if v.T.Sort != sliceElem(a.T.Sort) {
+			sfail("push: element sort %s, slice of %s", v.T.Sort, sliceElem(a.T.Sort))
+		}
+		return TV{MkSlice(StoreT(SlElems(a.T), SlLen(a.T), v.T), mk(SInt, "(+ %s 1)", SlLen(a.T))), a.Ty}
 	case "min", "max":
 		a := e.Tr(x.Args[0]).T
 		for _, r := range x.Args[1:] {
@@ -864,7 +892,7 @@ func (e *Env) quant(x *Expr) TV {
 	// inside (each instance creates a skolem term that re-triggers the hypothesis: matching loop),
 	// which are instantiated by the generator under its generation limits
 	instSide := (x.Name == "forall") == e.assume
-	if e.canonQ && !(e.hybrid && (!instSide || containsQuant(x.Args[0], e.x.db))) {
+	if e.canonQ && !(e.hybrid && (!instSide || (containsQuant(x.Args[0], e.x.db) && !e.hybridAll))) {
 		vars := map[string]TV{}
 		for k, v := range e.vars {
 			vars[k] = v
